@@ -266,6 +266,28 @@ def trace(body, x, through_casts=True, extra_transparent=(), max_steps=64):
             if rv.kind == "ref" or rv.kind == "rawptr":
                 place = rv.place
                 continue
+            if rv.kind == "agg" and fields and rv.j["ak"] in ("tuple", "adt"):
+                # projection into a freshly built aggregate: continue with the selected operand
+                sel = None
+                if rv.j["ak"] == "tuple" and fields[0].startswith("tuple."):
+                    try:
+                        sel = int(fields[0].split(".")[1])
+                    except ValueError:
+                        sel = None
+                elif rv.j["ak"] == "adt" and not rv.j.get("is_enum"):
+                    nm = fields[0].split(".")[-1]
+                    if nm in rv.j.get("fields", []) and short_owner(rv.j["adt"]) == fields[0].rsplit(".", 1)[0]:
+                        sel = rv.j["fields"].index(nm)
+                if sel is not None and sel < len(rv.ops):
+                    op = rv.ops[sel]
+                    fields = fields[1:]
+                    if op.kind == "const":
+                        if fields:
+                            return Trace(("const", op), fields, variants, steps, casts)
+                        return Trace(("const", op), fields, variants, steps, casts)
+                    # restart the walk at the operand, keeping the remaining outer fields
+                    sub = trace(body, op, through_casts, extra_transparent, max_steps - 1)
+                    return Trace(sub.root, sub.fields + fields, sub.variants + variants, steps + sub.steps, casts + sub.casts)
             if rv.kind == "cast" and through_casts:
                 op = rv.ops[0]
                 casts.append((rv.j.get("from"), rv.j.get("ty")))
@@ -303,7 +325,7 @@ def value_sources(body, x, depth=0, seen=None, through=VALUE_PRESERVING):
     t = trace(body, x)
     out = set()
     k = t.kind
-    if t.fields:
+    if t.fields and not (k == "rv" and all(f.startswith("tuple.") for f in t.fields)):
         out.add(("field", t.last_field))
         return out
     if k == "param":
